@@ -17,6 +17,7 @@ import (
 type KnownFinding struct {
 	Property   string `json:"property"`
 	Obligation string `json:"obligation"`
+	Regex      string `json:"obligation_regex,omitempty"` // alternative to Obligation: every obligation whose name matches
 	Status     string `json:"status"` // known | fixed
 	What       string `json:"what"`
 	Witness    string `json:"witness_input,omitempty"`
@@ -172,10 +173,35 @@ func cmdCheck(prop, tier string, jobs int) int {
 	s.solver.SolveCanaries(pr.canaries, jobs)
 
 	knownBy := map[string]KnownFinding{}
+	type knownRe struct {
+		re *regexp.Regexp
+		k  KnownFinding
+	}
+	var knownRes []knownRe
 	for _, k := range known {
 		if k.Property == prop && k.Status == "known" {
+			if k.Regex != "" {
+				re, err := regexp.Compile("^(?:" + k.Regex + ")$")
+				if err != nil {
+					fmt.Println("ERROR known_findings.json: bad obligation_regex:", err)
+					return 2
+				}
+				knownRes = append(knownRes, knownRe{re, k})
+				continue
+			}
 			knownBy[k.Obligation] = k
 		}
+	}
+	lookupKnown := func(name string) (KnownFinding, bool) {
+		if k, ok := knownBy[name]; ok {
+			return k, true
+		}
+		for _, kr := range knownRes {
+			if kr.re.MatchString(name) {
+				return kr.k, true
+			}
+		}
+		return KnownFinding{}, false
 	}
 	violations := 0
 	exit := 0
@@ -203,7 +229,7 @@ func cmdCheck(prop, tier string, jobs int) int {
 			discharged++
 			continue
 		}
-		if k, ok := knownBy[ob.Name]; ok {
+		if k, ok := lookupKnown(ob.Name); ok {
 			fmt.Printf("KNOWN-FINDING: property=%s %s %s\n", prop, ob.Name, k.What)
 			knownHit = append(knownHit, ob.Name)
 			continue
@@ -228,7 +254,7 @@ func cmdCheck(prop, tier string, jobs int) int {
 	}
 	for _, ob := range pr.bounded {
 		if ob.Result != "pass" {
-			if k, ok := knownBy[ob.Name]; ok {
+			if k, ok := lookupKnown(ob.Name); ok {
 				fmt.Printf("KNOWN-FINDING: property=%s %s %s\n", prop, ob.Name, k.What)
 				knownHit = append(knownHit, ob.Name)
 				continue
@@ -348,10 +374,24 @@ func cmdLock(jobs int) int {
 	defer s.solver.Close()
 	known, _ := loadKnown()
 	isKnown := map[string]bool{}
+	var knownRegs []*regexp.Regexp
 	for _, k := range known {
 		if k.Status == "known" {
 			isKnown[k.Property+"|"+k.Obligation] = true
+			if k.Regex != "" {
+				if re, err := regexp.Compile("^(?:" + k.Regex + ")$"); err == nil {
+					knownRegs = append(knownRegs, re)
+				}
+			}
 		}
+	}
+	matchKnown := func(name string) bool {
+		for _, re := range knownRegs {
+			if re.MatchString(name) {
+				return true
+			}
+		}
+		return false
 	}
 	lock := &LockFile{Note: "obligations that exist and are discharged on the unchanged tree; a check fails when one of them is no longer generated. Rewritten only by 'govc lock'.", Obligations: map[string][]string{}}
 	rc := 0
@@ -368,7 +408,7 @@ func cmdLock(jobs int) int {
 		for _, ob := range pr.obs {
 			if ob.Result == "unsat" {
 				names = append(names, ob.Name)
-			} else if !isKnown[p+"|"+ob.Name] {
+			} else if !isKnown[p+"|"+ob.Name] && !matchKnown(ob.Name) {
 				fmt.Printf("not locked (not discharged): %s %s %s\n", p, ob.Name, ob.Result)
 				rc = 1
 			}
